@@ -9,7 +9,7 @@ META = dict(
     note='Known finding: set_sparse_patterns panics (assert removed_stats.skipped_files == 0) when a leaving tracked path is obstructed on disk, after having already removed other files, with nothing saved. Bounded: 6-path universe, 6 pattern sets.',
     design='4 C27',
 )
-READY = False
+READY = True
 LEVEL = META["category"]
 
 
@@ -18,5 +18,5 @@ def run(ctx):
         ctx, "C27",
         mc_cfgs=[ctx.q("c27", "c27_thorough")],
         neg_cfgs=[("neg_sparse_drop_tree", "Inv_C27"), ("neg_sparse_delete", "Inv_C27"), ("finding_sparse_panic", "Inv_C27")],
-        gen_cfgs=[("gen_c27", ctx.q(300, 2400))],
-        n_random=ctx.q(300, 4000), focus="sparse")
+        gen_cfgs=[("gen_c27", ctx.q(300, 1000))],
+        n_random=ctx.q(300, 2000), focus="sparse")
